@@ -165,7 +165,8 @@ Init ==
   /\ nops = 0 /\ script = <<>>
   /\ LET e == [k |-> "init", cons |-> g.cons, w |-> g.w, h |-> g.h, pitch |-> g.pitch, bpp |-> g.bpp, ci |-> g.ci,
                gw |-> g.gw, gh |-> g.gh, bpr |-> g.bpr, offY |-> g.offY, clear |-> g.clear, dfg |-> g.dfg, dbg |-> g.dbg, fd |-> g.fd, pal |-> g.pal,
-               rows |-> RowsOf(fb), cols |-> Cols, nrows |-> Rows]
+               rows |-> RowsOf(fb), cols |-> Cols, nrows |-> Rows,
+               mapped |-> g.h * g.pitch, fblen |-> g.h * g.pitch]
          m == C!MonInit(C!S0, e)
      IN s = m.s /\ mismatch = C!FirstFail(0, m.cs)
 
